@@ -2,13 +2,18 @@ HEADER = '''(* C05  Register constraints are an invariant of every checked-opera
    Statements only (printed by Coq from the lemmas they are closed with); proofs in Proof/RegLemmas.v, Proof/RegInvariant.v; model Model/RegTable.v.
    [Inv t]: the table is initialised, its entries are ordered and disjoint, every register lies wholly inside one area, all words are 16 bit,
    and every register whose words decode holds a value that satisfies its constraint.
-   Proved: Inv is preserved by every checked typed operation (set, bit set, bit clear; accepted or refused) and hence by every history of them,
-   and under Inv every value a get delivers satisfies its register's constraint.  Not a theorem (correspondence only, partial): histories that
-   also contain block writes and sanitise (one-step facts about them: refused = unchanged, success = every overlapped register validated). *)'''
-IMPORTS = '''From Ufw Require Import Base.Bits Model.RegTable Proof.RegLemmas Proof.RegInitLemmas Proof.RegInvariant.
+   [InvB t]: Inv t and the areas are ordered, disjoint and full.
+   Proved: InvB is preserved by EVERY checked operation - typed set, bit set, bit clear, block write (across area borders) and sanitise, accepted
+   or refused - and hence by every history of them; under it every value a get delivers satisfies its register's constraint.
+   Outside the invariant by construction: registers with the always-failing constraint (their default only validates during initialisation). *)'''
+IMPORTS = '''From Ufw Require Import Base.Bits Model.RegTable Proof.RegLemmas Proof.RegInitLemmas Proof.RegInvariant Proof.RegMemory Proof.RegBlockInv.
 From Coq Require Import Bool Lia.
 Local Open Scope N_scope.'''
 ITEMS = [
+ ('C05_history_invariant_all', 'history_invariant_all', 'the invariant survives every history of checked operations: typed set, bit set, bit clear, block write, sanitise'),
+ ('C05_history_get_all', 'history_get_all', 'after any such history every value a get delivers satisfies the constraint of its register'),
+ ('C05_block_write_preserves', 'block_write_preserves', 'one block write, accepted or refused, across area borders'),
+ ('C05_sanitise_preserves', 'sanitise_preserves', 'one sanitise run'),
  ('C05_history_invariant', 'history_invariant', 'the invariant survives every history of checked typed operations with well-typed operands'),
  ('C05_history_get', 'history_get', 'after any such history every value a get delivers satisfies the constraint of its register'),
  ('C05_invariant_means', 'inv_get', 'what the invariant gives a reader'),
